@@ -359,6 +359,16 @@ def check(ctx):
     for rule, key, ok, where, what, detail in sub.got:
         if (rule == 'R2.1-node-semantics' and key.endswith('.evaluate')) or rule == 'R2.2-translation':
             ctx.ob('R5.3-stochastic-rates', '%s/%s' % (rule, key), ok, where, what, detail)
+    from . import c03
+    # "S" in dx/dt = S * rate (resp. the net stoichiometry of the master equation) is built from the reaction list with multiplicity, a
+    # species on both sides cancelling by count (C03 R3.1 / R3.3) - re-emitted here
+    sub = SubCtx(ctx)
+    c03.check_accumulation(sub)
+    c03.check_matrices(sub)
+    c03.check_constructor_reactions(sub)
+    for rule, key, ok, where, what, detail in sub.got:
+        if rule in ('R3.1-accumulation', 'R3.3-matrix-fill'):
+            ctx.ob('R5.4-net-stoichiometry', 'C03/%s/%s' % (rule, key), ok, where, what, detail)
     ctx.floor('R5.4-net-stoichiometry', 10)
     ctx.floor('R5.3-stochastic-rates', 42)
     ctx.floor('R5.1-primitive', 4)
